@@ -10,9 +10,43 @@ def keep(o):
     return ('<-Ok:' in o) or ('<-Iv:' in o)
 
 
+def output_edges(ck):
+    """dependencies that exist ONLY through `X.output` inputs: one generator with several consumers, producers named before or
+    after their consumers on the command line, chains of such edges"""
+    import concurrent.futures
+    import random
+    from slices import sysrun
+    shapes = []
+    for _ in range(4 if ck.tier == 'quick' else 40):
+        r = random.Random(ck.rng.getrandbits(48))
+        k = r.choice([2, 2, 3, 4])
+        T = {'gen': {'kind': 'build', 'deps': []}}
+        for i in range(k):
+            T['use%d' % i] = {'kind': 'build', 'deps': ['gen'] + (['use%d' % (i - 1)] if i and r.random() < 0.3 else [])}
+        T['all'] = {'kind': 'aggregate', 'deps': ['use%d' % i for i in range(k)]}
+        roots = r.choice([['all'], ['gen'] + ['use%d' % i for i in range(k)], ['use%d' % i for i in range(k)] + ['gen'],
+                          ['gen', 'use%d' % (k - 1)], ['all', 'gen']])
+        shapes.append((T, roots, r))
+    found = []
+    ck.rule('output edges: one generator whose consumers depend on it only through `gen.output` in their inputs (no `dependencies` '
+            'entry), requested through an aggregate, or with the producer named before / after the consumers; gated scripts '
+            'released in random order; oracle as for declared dependencies')
+
+    def one(x):
+        T, roots, r = x
+        return x, sysrun.oneshot(r, T, roots, gated=True, tag='C01o%d' % r.getrandbits(20), implied_p=1.0, second_run=False)
+    with concurrent.futures.ThreadPoolExecutor(max_workers=4) as ex:
+        for (T, roots, r), (obs, V) in ex.map(one, shapes):
+            ck.count(('outedges', str(sorted(T.items())), tuple(roots)), sample={'targets': T, 'roots': roots, 'trace': obs['trace'][:10]})
+            ck.tally('sys:output-edges-only')
+            if 'C01' in V:
+                found.append((obs, V['C01']))
+    return found
+
+
 def run(ck):
     engine.check_engine(ck, 'C01', actor.proj(keep_out=keep, keys=('starts',)),
-                        'script starts + Ok/Invalidated messages sent', fail_p=0.4)
+                        'script starts + Ok/Invalidated messages sent', fail_p=0.4, extra=output_edges)
 
 
 def replay(ck, path):
